@@ -141,6 +141,8 @@ def plan(ctx):
     for kind in ("future", "native"):
         jobs.append(((kind, "none", 1, 3, (7, 7, 8)), d))                  # the very same object arriving again
         jobs.append(((kind, "none", 1, 3, ("tok", "tok", "tok")), d))
+    jobs.append((("future", "none", 1, 7), 1))                             # many overwrites within one busy period
+    jobs.append((("native", "none", 1, 6), 1))
     jobs.append((("future", "none", 1, 2, None, 1), 2))                    # arrivals around a long idle period
     jobs.append((("sync", "none", 1, 3, (1, 1.0, None), 1), 2))
     return jobs
